@@ -151,6 +151,9 @@ impl Hooks {
             let rw = crate::inject::rewriter(v.clone());
             if v.victim == "s" { h.server_tap.rx_rewrite = Some(rw); } else { h.client_tap.rx_rewrite = Some(rw); }
         }
+        if sc.early_retire_at_us > 0 && sc.violation.is_none() {
+            h.server_tap.rx_rewrite = Some(crate::inject::early_retire(sc.early_retire_at_us));
+        }
         if sc.spoof_probe && sc.violation.is_none() {
             h.server_tap.rx_rewrite = Some(crate::inject::probe_rewriter());
         }
@@ -166,6 +169,7 @@ impl Hooks {
 pub fn run(sc: &Scenario, hooks: Hooks) -> Vec<Value> {
     let _ = take_events();
     crate::common::CIDLEN.with(|c| c.set([0, 0]));
+    crate::common::ISSUED_MAX.with(|c| c.set([0, 0]));
     // guarded hooks of the code under test (cfg aws_s2n_quic_verif) report through a thread-local line sink
     s2n_quic_core::verif::install(Box::new(|line: &str| {
         if let Ok(v) = serde_json::from_str::<Value>(line) {
